@@ -270,6 +270,9 @@ func features(c *c07.Cfg, res *hx.Result) (nontrivial bool) {
 		}
 		if strings.HasPrefix(s.Name, "_front_tcp_") {
 			res.Count("state_with_tcp_service_frontend")
+			if len(s.CrtLists) > 0 {
+				res.Count("state_with_tcp_service_frontend_tls")
+			}
 		}
 		if strings.HasPrefix(s.Name, "_tcp_") {
 			res.Count("state_with_tcp_configmap_listen")
@@ -391,7 +394,17 @@ func main() {
 			if i%2 == 0 {
 				op.DefaultService = "ns1/svc1"
 			}
-			scens = append(scens, scen{op, world.GenHistory(rng, world.Full(), 1+rng.Intn(4), 3), "world"})
+			wc := world.Full()
+			wc.TCP = i%3 != 2
+			scens = append(scens, scen{op, world.GenHistory(rng, wc, 1+rng.Intn(4), 3), "world"})
+		}
+		nSplit := o.Count(40, 1500)
+		if o.Search {
+			nSplit = o.Count(400, 3000)
+		}
+		for i := 0; i < nSplit; i++ {
+			op, h := c07.GenSplitTLS(rng)
+			scens = append(scens, scen{op, h, "tcp-split-tls"})
 		}
 		nChurn := o.Count(120, 4000)
 		if o.Search {
